@@ -24,7 +24,7 @@ import oracle
 from ser import Ids, Ser, Unsupported, Deser, parse_sexp, rat, bits_to_float
 
 LEAN_MODULE = "Optyx.Props.C03"
-EXTRA_MODULES = ["Optyx.Props.PinsC03", "Optyx.Props.BuildTie", "Optyx.Props.ClosurePathTie", "Optyx.Props.SymbolicJacTie"]   # transcription anchors (harness/source_pins.py)
+EXTRA_MODULES = ["Optyx.Props.PinsC03", "Optyx.Props.BuildTie", "Optyx.Props.ClosurePathTie", "Optyx.Props.SymbolicJacTie", "Optyx.Props.CompileEntryTie"]   # transcription anchors (harness/source_pins.py)
 THEOREMS = [
     "Optyx.Props.Closures.closureTables_agree",
     "Optyx.Props.Closures.sanitizeShape_agrees",
@@ -46,6 +46,8 @@ THEOREMS = [
     "Optyx.Props.ClosurePathTie.compileJacobian_path",
     "Optyx.Props.SymbolicJacTie.computeJacobian_eq",
     "Optyx.Props.SymbolicJacTie.computeHessian_eq",
+    "Optyx.Props.CompileEntryTie.compileExpression_eq",
+    "Optyx.Props.CompileEntryTie.param_run",
     "Optyx.Props.PinsC03.anchors",
     "Optyx.Props.C03.jacRow_sound_of_source_equations",
     "Optyx.Props.JacRowTie.jacRow_step",
